@@ -1353,7 +1353,7 @@ def _kmpc_fork_call(s, args, ins):
     s.par_log = []
     pushed = getattr(s, '_pushed', None)
     s._pushed = None
-    s.team2 = s.opts.get('omp_world') == 'upper2' and (pushed is None or (isinstance(pushed, int) and pushed >= 2))
+    s.team2 = s.opts.get('omp_world') in ('upper2', 'tid1') and (pushed is None or (isinstance(pushed, int) and pushed >= 2))
     site = s.mod.loc(ins.dbg) if ins is not None else (None, None)
     caller = s.stack[-1][0] if s.stack else None
     g = s.new_region('gtid', 'alloca', extent=4)
@@ -1377,7 +1377,7 @@ def _kmpc_static_init(s, args, ins):
     if not isinstance(sched, int):
         raise Incomplete('symbolic OpenMP schedule')
     sz = 8 if ins is None or 'init_8' in ins.text else 4
-    team2 = getattr(s, 'team2', False)
+    team2 = getattr(s, 'team2', False) and s.opts.get('omp_world') == 'upper2'     # 'tid1': thread 1 of 2 with every iteration (footprints only)
     mask = (1 << (8 * sz)) - 1
     if sched == 34 and team2:      # thread 1 of 2: the upper half [lo + ceil(n/2), up]
         lo = s.load_cell(plower, sz)
